@@ -185,6 +185,55 @@ Theorem clone_swallow_refuted :
 Proof. exact clone_swallow_refuted_lemma. Qed.
 Print Assumptions clone_swallow_refuted.
 
+(* ---- deepening round ---------------------------------------------------------------------------- *)
+(* the guard of shrink_preserve_parameters is not an assumption for the shrinking mutations: it holds for
+   every parameter of rank <= 2 and for convolution kernels whose kernel dimensions are unchanged ... *)
+Theorem shrink_guard_rank_le2 : forall so sn : list nat,
+  length so = length sn -> length so <= 2 -> shrink_guard so sn = true.
+Proof. exact shrink_guard_rank_le2_lemma. Qed.
+Print Assumptions shrink_guard_rank_le2.
+
+Theorem shrink_guard_same_kernel : forall (co ci co' ci' : nat) (kernel : list nat),
+  shrink_guard (co :: ci :: kernel) (co' :: ci' :: kernel) = true.
+Proof. exact shrink_guard_same_kernel_lemma. Qed.
+Print Assumptions shrink_guard_same_kernel.
+
+(* ... so on a network all of whose resized parameters are of these kinds (CNN / ResNet under
+   remove_layer, remove_channel, remove_block) it succeeds and equals preserve_parameters *)
+Theorem shrink_on_cnn : forall (A : Type) (old new : named A),
+  wf_named old -> wf_named new ->
+  (forall k op p, lookup k old = Some op -> In (k, p) new -> shrinkable (p_size op) (p_size p)) ->
+  shrink_preserve old new = Some (preserve old new).
+Proof. exact @shrink_on_cnn_lemma. Qed.
+Print Assumptions shrink_on_cnn.
+
+(* a growing mutation (every axis of the old size fits into the new one) loses nothing at all *)
+Theorem grow_keeps_everything : forall (A : Type) (old new : named A) k op p,
+  wf_named old -> wf_named new ->
+  lookup k old = Some op -> lookup k new = Some p -> size_le (p_size op) (p_size p) = true ->
+  exists rp, lookup k (preserve old new) = Some rp /\
+    forall ix a, get (p_data op) ix = Some a -> get (p_data rp) ix = Some a.
+Proof. exact @grow_keeps_everything_lemma. Qed.
+Print Assumptions grow_keeps_everything.
+
+(* state = named entries (parameters and buffers) + training flag: an unchanged architecture is
+   re-created to exactly the old state and a clone computes the same function IN THE SAME MODE, for any
+   forward pass that depends on the whole state *)
+Theorem recreate_state_same_function :
+  forall (A X Y : Type) (forward : mstate A -> X -> Y) (old fresh : mstate A),
+  NoDup (map fst (st_named old)) -> same_sig (st_named old) (st_named fresh) ->
+  recreate_state false old fresh = Some old /\
+  (forall x, forward (clone_state old fresh) x = forward old x).
+Proof. exact @recreate_state_same_function_lemma. Qed.
+Print Assumptions recreate_state_same_function.
+
+(* the behaviour before 1205c28 (the fresh module's training flag survives) is refuted *)
+Theorem mode_lost_refuted :
+  exists old fresh : mstate nat, same_sig (st_named old) (st_named fresh) /\ NoDup (map fst (st_named old)) /\
+    recreate_state_pinned old fresh <> old.
+Proof. exact mode_lost_refuted_lemma. Qed.
+Print Assumptions mode_lost_refuted.
+
 (* ---- non-vacuity ---------------------------------------------------------------------------- *)
 Definition ex_old : named nat :=
   [("l.weight"%string, {| p_size := [2;2]; p_data := Dim [Dim [Sc 1; Sc 2]; Dim [Sc 3; Sc 4]] |});
@@ -212,3 +261,13 @@ Qed.
 
 Example same_sig_nonvacuous : same_sig ex_old ex_old /\ clone ex_old ex_old = ex_old.
 Proof. split; [repeat constructor|reflexivity]. Qed.
+
+Example shrinkable_nonvacuous :
+  shrinkable [5;2;3;3] [3;2;3;3] /\ shrinkable [5] [3] /\ shrinkable [4;48] [4;27] /\
+  shrink_guard [5;2;3;3] [3;2;2;2] = false /\ size_le [2;3] [4;3] = true.
+Proof.
+  repeat split; try reflexivity.
+  - right; right. exists 5, 2, 3, 2, [3;3]. split; reflexivity.
+  - right; left. split; cbn; auto.
+  - right; left. split; cbn; auto.
+Qed.
